@@ -23,6 +23,7 @@ sys.path.insert(0, os.path.join(ROOT, "gen"))
 sys.path.insert(0, os.path.join(ROOT, "lib"))
 
 import facts  # noqa: E402
+sys.modules.setdefault("facts", facts)
 import props  # noqa: E402
 
 FORBIDDEN = re.compile(
@@ -30,8 +31,9 @@ FORBIDDEN = re.compile(
     r"|Unset\s+Guard\s+Checking|Unset\s+Positivity\s+Checking|Unset\s+Universe\s+Checking|type-in-type|impredicative-set|native_compute"
 )
 
+REPO = os.environ.get("VERIF_REPO", "/repo")
 ENV = dict(os.environ)
-ENV.update({"CARGO_NET_OFFLINE": "true", "CARGO_TARGET_DIR": TARGET, "RUST_BACKTRACE": "0"})
+ENV.update({"VERIF_REPO": REPO, "CARGO_NET_OFFLINE": "true", "CARGO_TARGET_DIR": TARGET, "RUST_BACKTRACE": "0"})
 
 
 def sh(cmd, cwd=None, timeout=None, env=None):
@@ -177,7 +179,11 @@ class Check:
     # ---------------------------------------------------------------- 3. correspondence
     def build_harness(self):
         lock = os.path.join(HARNESS, "Cargo.lock")
-        shutil.copyfile("/repo/Cargo.lock", lock)
+        shutil.copyfile(os.path.join(REPO, "Cargo.lock"), lock)
+        tmpl = open(os.path.join(HARNESS, "Cargo.toml.in")).read().replace("@REPO@", REPO)
+        ct = os.path.join(HARNESS, "Cargo.toml")
+        if not os.path.exists(ct) or open(ct).read() != tmpl:
+            open(ct, "w").write(tmpl)
         self.bins = {}
         for prof in self.cfg.get("profiles", ["debug"]):
             cmd = ["cargo", "build", "--offline", "--features", "hooks"]
